@@ -183,9 +183,29 @@ def run(prog: Program, col: Collector, tier: str, refs: Optional[Refs] = None, c
         ok = ok and bool(init) and norm(init[0].value) == "0"
     col.check(ok, f"{ac.fq}::ranges", "part i receives out_adj[start_i : start_i + size_i] and start advances by size_i from 0",
               f"the slice bounds and the running offset do not use the same per-part size ({why})", ac.loc())
-    ok = any(isinstance(n, ast.If) and "not in out_adj.inputs" in norm(n.test) for n in ac.body)
-    col.check(ok, f"{ac.fq}::broadcast case", "when the adjoint does not depend on the concatenated dimension every part receives it whole",
-              "the case where out_adj does not mention the part dimension is not handled", ac.loc())
+    # roles of the two names: Cat(name, parts, part_name) has the input `name`; each part has the input `part_name`.  The incoming
+    # adjoint is indexed by `name`; the adjoint handed to a part must be indexed by `part_name`.
+    cat_tc = cat.term_classes.get("funsor.terms.Cat")
+    nfields = len(cat_tc.fields) if cat_tc else 3
+    params = ac.positional
+    if len(params) >= 3 + nfields and cat_tc and cat_tc.fields[:3] == ["name", "parts", "part_name"]:
+        out_p, name_p, parts_p, pname_p = params[2], params[3], params[4], params[5]
+        tests = [n.test for n in ac.body if isinstance(n, ast.If) and isinstance(n.test, ast.Compare) and len(n.test.ops) == 1 and isinstance(n.test.ops[0], ast.NotIn)
+                 and norm(n.test.comparators[0]) == f"{out_p}.inputs"]
+        ok = bool(tests) and all(norm(t.left) == name_p for t in tests)
+        col.check(ok, f"{ac.fq}::broadcast case", f"when the incoming adjoint does not depend on the concatenated dimension `{name_p}` every part receives it whole",
+                  f"the broadcast case tests `{norm(tests[0].left) if tests else '?'}`, not the Cat's own dimension `{name_p}`: with different names for the concatenated and the part "
+                  "dimension every part receives the whole unsliced adjoint", ac.loc(tests[0]) if tests else ac.loc())
+        sl = [n for n in ast.walk(ac.node) if isinstance(n, ast.Call) and refs.resolve(n.func) == "funsor.terms.Slice" and n.args]
+        ok = bool(sl) and all(norm(x.args[0]) == pname_p for x in sl)
+        col.check(ok, f"{ac.fq}::slice is indexed by the part's dimension", f"the slice substituted for `{name_p}` is named `{pname_p}`, the dimension of the part",
+                  f"the slice is named `{norm(sl[0].args[0]) if sl else '?'}` instead of `{pname_p}`: the adjoint handed to a part is indexed by the wrong name", ac.loc(sl[0]) if sl else ac.loc())
+        subs = [k for n in ast.walk(ac.node) if isinstance(n, ast.Call) and norm(n.func) == out_p for k in n.keywords if k.arg is None and isinstance(k.value, ast.Dict)]
+        ok = bool(subs) and all(len(d.value.keys) == 1 and norm(d.value.keys[0]) == name_p for d in subs)
+        col.check(ok, f"{ac.fq}::substitutes the concatenated dimension", f"the incoming adjoint is sliced along `{name_p}`",
+                  "the incoming adjoint is not sliced along the Cat's own dimension", ac.loc())
+    else:
+        col.unresolved(f"{ac.fq}::name roles", "adjoint_cat parameters do not line up with Cat's fields", ac.loc())
     from . import algebra
     algebra.r_number_tensor_siblings(prog, col, refs, cat, "R11.6")
     # adjoints in the (logaddexp, add) semiring accumulate with logaddexp from the zero -inf and divide with safesub (plates)
